@@ -614,6 +614,10 @@ class TV:
             elif at[0] == "end-verdict":
                 tgt = z3.simplify(a["st"][("m", "state")])
                 acc = z3.is_int_value(tgt) and self.spec.is_accepting(self.c.cctx.dfa.states[tgt.as_long()])
+                if not acc and z3.is_int_value(tgt) and not a.get("overridden") and self.passes_through(self.c.cctx.dfa.states[tgt.as_long()]):
+                    # end-of-input has been consumed; states that never look at the input (conditions, pure fall-throughs) still have to run
+                    self.check_continue(t2, i, p, hyp, consumed_expected=0, inval0=inval0, start0=start0, end0=end0, bs=bs, fam="end", ctx=ctx)
+                    continue
                 want = "DONE" if acc else "FAIL"
                 if term[0] != "return" or term[1] != f"{U}_{want}":
                     ov = ".override" if a.get("overridden") else ""
@@ -628,6 +632,15 @@ class TV:
         # invariant preservation on every path that keeps the parser alive
         for (txt, g) in self.inv_of(cst.vals):
             self.prove("memsafe", f"{tag}.inv.{txt.split(':')[0]}.{abs(hash(txt))%1000}", p["pc"], g, f"invariant broken: {txt}", term[-1] if term[0] in ("return", "goto") else 0)
+
+    def passes_through(self, state):
+        """a state whose behaviour does not depend on the current symbol: a condition point, or one whose transitions (Else included) all
+        fall through, without actions, to the same state"""
+        n = self.nmfu
+        if isinstance(state, n.DFConditionPoint):
+            return True
+        ts = list(state.transitions)
+        return bool(ts) and all(t.is_fallthrough and t.target is ts[0].target and not t.actions for t in ts) and any(v is n.DFTransition.Else for t in ts for v in t.on_values)
 
     def witness_from(self, hyp):
         if self.check(hyp) == "sat":
